@@ -13,7 +13,12 @@ import (
 	. "verif/internal/luaref"
 )
 
-func genMetaChain(thorough bool) Gen {
+func genMetaChain(thorough bool) Gen { return genMetaChainVia(thorough, false) }
+
+// genMetaChainVia with api=true: the same product, but every read and store of the sequence is made
+// by a host function through LState.GetField/SetField (string key) or GetTable/SetTable (C10:
+// "object ops equal Lua ops"); the model's host functions are the plain index/newindex events.
+func genMetaChainVia(thorough, api bool) Gen {
 	maxDepth := 2
 	if thorough {
 		maxDepth = 3
@@ -49,9 +54,13 @@ func genMetaChain(thorough bool) Gen {
 				for _, l := range cfg {
 					shape += fmt.Sprintf("%s,%s,%s>", keyStates[l.ks], idxKinds[l.ix], nidxKinds[l.nx])
 				}
-				for _, keyform := range []string{"const", "reg", "num"} {
+				keyforms, family := []string{"const", "reg", "num"}, "F-chain"
+				if api {
+					keyforms, family = []string{"api-field", "api-table", "api-table-num"}, "F-apichain"
+				}
+				for _, keyform := range keyforms {
 					keyform := keyform
-					yield(&Prog{Family: "F-chain", Shape: "chain/" + shape + "/" + keyform, Mk: func() *Block {
+					yield(&Prog{Family: family, Shape: "chain/" + shape + "/" + keyform, Mk: func() *Block {
 						var key func() Expr
 						st := []Stat{}
 						switch keyform {
@@ -60,8 +69,17 @@ func genMetaChain(thorough bool) Gen {
 						case "reg":
 							st = append(st, Local1("kk", Str("k")))
 							key = func() Expr { return Name("kk") }
-						case "num":
+						case "num", "api-table-num":
 							key = func() Expr { return Num(2) }
+						case "api-field", "api-table":
+							key = func() Expr { return Str("k") }
+						}
+						getter, setter := "", ""
+						switch keyform {
+						case "api-field":
+							getter, setter = "apigetfield", "apisetfield"
+						case "api-table", "api-table-num":
+							getter, setter = "apigettable", "apisettable"
 						}
 						tn := func(i int) string { return fmt.Sprintf("t%d", i+1) }
 						// tables, innermost first so that links can refer to them
@@ -105,7 +123,18 @@ func genMetaChain(thorough bool) Gen {
 							ids = append(ids, Name(tn(i)))
 						}
 						st = append(st, Emit(ids...))
-						get := func(tag string) Stat { return Emit(Str(tag), Index(Name("t1"), key())) }
+						get := func(tag string) Stat {
+							if getter != "" {
+								return Emit(Str(tag), CallN(getter, Name("t1"), key()))
+							}
+							return Emit(Str(tag), Index(Name("t1"), key()))
+						}
+						put := func(v Expr) Stat {
+							if setter != "" {
+								return CallS(Name(setter), Name("t1"), key(), v)
+							}
+							return Assign1(Index(Name("t1"), key()), v)
+						}
 						dump := func(tag string) Stat {
 							a := []Expr{Str(tag), CallN("rawget", Name("base"), key())}
 							for i := 0; i < depth; i++ {
@@ -114,10 +143,10 @@ func genMetaChain(thorough bool) Gen {
 							return Emit(a...)
 						}
 						st = append(st, get("get0"),
-							Assign1(Index(Name("t1"), key()), Str("v1")), dump("raw1"), get("get1"),
-							Assign1(Index(Name("t1"), key()), Nil()), dump("raw2"), get("get2"),
-							Assign1(Index(Name("t1"), key()), False()), dump("raw3"), get("get3"),
-							Assign1(Index(Name("t1"), key()), Str("v2")), dump("raw4"), get("get4"))
+							put(Str("v1")), dump("raw1"), get("get1"),
+							put(Nil()), dump("raw2"), get("get2"),
+							put(False()), dump("raw3"), get("get3"),
+							put(Str("v2")), dump("raw4"), get("get4"))
 						return Blk(st...)
 					}})
 				}
